@@ -93,6 +93,11 @@ func init() {
 		x.mapOrder = int(x.concInt(args[0], "map order mode"))
 		return nil
 	})
+	reg(hp+"verifAnd", func(x *Exec, fr *frame, args []value) value { return x.tb.And(args[0].(*Term), args[1].(*Term)) })
+	reg(hp+"verifOr", func(x *Exec, fr *frame, args []value) value { return x.tb.Or(args[0].(*Term), args[1].(*Term)) })
+	reg(hp+"verifImplies", func(x *Exec, fr *frame, args []value) value { return x.tb.Implies(args[0].(*Term), args[1].(*Term)) })
+	reg(hp+"verifIteInt", func(x *Exec, fr *frame, args []value) value { return x.tb.Ite(args[0].(*Term), args[1].(*Term), args[2].(*Term)) })
+	reg(hp+"verifFloatBits", func(x *Exec, fr *frame, args []value) value { return x.tb.FToBits(args[0].(*Term)) })
 	reg(hp+"verifSymbolic", func(x *Exec, fr *frame, args []value) value { return x.tb.True() })
 	reg(hp+"verifCatch", func(x *Exec, fr *frame, args []value) (res value) {
 		defer func() {
@@ -301,6 +306,33 @@ func init() {
 		return p
 	})
 	reg("encoding/json.freeScanner", func(x *Exec, fr *frame, args []value) value { return nil })
+
+	// sort.Slice family: reflection-based swapper replaced by an insertion sort over the
+	// slice cells (what the real pdqsort does for n <= 12), calling the real less closure.
+	sortSlice := func(x *Exec, fr *frame, args []value) value {
+		iv := args[0].(iface)
+		sl, ok := iv.v.(sliceVal)
+		if !ok {
+			panic(unsupported{"sort.Slice of non-slice"})
+		}
+		n := len(sl.a)
+		if n > 12 {
+			panic(unsupported{"sort.Slice with more than 12 elements"})
+		}
+		less := args[1]
+		for i := 1; i < n; i++ {
+			for j := i; j > 0; j-- {
+				r := x.call(fr, token.NoPos, less, []value{x.tb.Int(int64(j)), x.tb.Int(int64(j - 1))}).(*Term)
+				if !x.branch(r) {
+					break
+				}
+				sl.a[j], sl.a[j-1] = sl.a[j-1], sl.a[j]
+			}
+		}
+		return nil
+	}
+	reg("sort.Slice", sortSlice)
+	reg("sort.SliceStable", sortSlice)
 
 	registerNumberStubs(reg)
 	registerSyncStubs(reg)
